@@ -19,8 +19,9 @@ profile, state and parameter vector satisfying the stated premises.  The premise
 conclusions of the same theorems for the previous day, so each envelope is preserved day after
 day; the premises on crop parameters hold for the whole catalogue (checked by the tie and, for
 the response functions, by the generated obligations of C17).  Laws of `exp`, `pow`, `sin` are
-hypotheses (`ExpOrdLaws`, `PowLaws`, `PowNonneg`, `SinLaw`), shown satisfiable at ℝ in
-`Proofs/*Real.lean`.
+hypotheses (`ExpOrdLaws`, `PowLaws`, `PowNonneg`, `PowSqLaw` — the last, `x ** 2 = x · x`, for the
+micro-advection polynomial `1.72c − c**2 + 0.3c**3` of the canopy cover —, `SinLaw`; bundled as
+`FnOK` at run level), shown satisfiable at ℝ in `Proofs/*Real.lean`.
 -/
 
 set_option linter.unusedSectionVars false
